@@ -223,3 +223,204 @@ Proof.
     rewrite Z.quot_div_nonneg by nia. reflexivity.
 Qed.
 End Step2.
+
+Ltac deltas :=
+  unfold at_, delta, M_feecollector, M_coinswap; cbn [acct_eqb denom_eqb andb];
+  repeat match goal with |- context [Z.eqb ?x ?y] => destruct (Z.eqb_spec x y); try lia end;
+  cbn [andb]; try lia.
+
+Lemma div_bounds N D : 0 < D -> (N / D) * D <= N < (N / D + 1) * D.
+Proof.
+  intros HD. pose proof (Z.div_mod N D ltac:(lia)) as E. pose proof (Z.mod_pos_bound N D HD) as B. nia.
+Qed.
+
+Lemma pool_of_sym s d1 d2 : pool_of s d1 d2 = pool_of s d2 d1.
+Proof.
+  unfold pool_of. rewrite (denom_eqb_sym d1 d2). destruct (denom_eqb d2 d1); [reflexivity|].
+  destruct d1, d2; reflexivity.
+Qed.
+
+(* the counter-asset (non-standard) side of a pool_of pair *)
+Lemma quote_is_token s din dout q a b :
+  pool_of s din dout = Some q ->
+  exists n, lookup_pool n (st_pools s) = Some q /\
+    ((din = Std /\ dout = Tok n /\ quote din a dout b = (Tok n, b)) \/
+     (din = Tok n /\ dout = Std /\ quote din a dout b = (Tok n, a))).
+Proof.
+  intros HP. destruct (pool_of_inv _ _ _ _ HP) as (n & HL & [[-> ->]|[-> ->]]); exists n; split; auto.
+Qed.
+
+Section Step3.
+Variable now : Z.
+
+(* C08 + C09 for a sell order *)
+Theorem sell_ok s u rec din ain dout min_out deadline s' r :
+  WF s -> exec now s (Sell u rec din ain dout min_out deadline) = Some (s', r) ->
+  exists q n out mx,
+    r = [] /\ pool_of s din dout = Some q /\ lookup_pool n (st_pools s) = Some q /\
+    expired now deadline = false /\
+    let X := st_bal s (Escrow q) din in let Y := st_bal s (Escrow q) dout in
+    let g := S18 - p_fee (st_params s) in
+    0 < X /\ 0 < Y /\
+    (* exactly the stated input leaves the payer *)
+    st_bal s' (User u) din = st_bal s (User u) din - ain /\
+    (* the recipient gets the output, at least the stated minimum *)
+    min_out <= out /\ 0 <= out < Y /\
+    (rec <> Escrow q -> st_bal s' rec dout = st_bal s rec dout + out) /\
+    (rec <> Escrow q -> st_bal s' (Escrow q) din = X + ain /\ st_bal s' (Escrow q) dout = Y - out) /\
+    (* within one unit of the exact constant-product value, rounded in the pool's favour *)
+    out * (X * S18 + ain * g) <= ain * g * Y < (out + 1) * (X * S18 + ain * g) /\
+    X * Y <= (X + ain) * (Y - out) /\
+    (* C09: standard coin on exactly one side, whitelisted counter-asset, leg within its maximum, no module recipient *)
+    is_module rec = false /\
+    ((din = Std /\ dout = Tok n /\ out <= mx) \/ (din = Tok n /\ dout = Std /\ ain <= mx)) /\
+    wl_lookup (Tok n) (p_wl (st_params s)) = Some mx.
+Proof.
+  intros W E. cbn [exec] in E. inv. bool_hyps. destruct v as [s2 b]. cbn [fst] in *.
+  match goal with HA : trade_sell _ _ _ _ _ _ _ = Some _ |- _ =>
+    destruct (trade_sell_effect _ _ _ _ _ _ _ _ _ HA ltac:(lia) (wf_params _ W))
+      as (q0 & HP & HX & HY & Hr & Hmin & Hr0 & (mx & HWL & Hmx) & Hbal & _ & HS & HB) end.
+  destruct (quote_is_token _ _ _ _ ain b HP) as (n & HL & Hq).
+  pose proof (params_valid_fee _ (wf_params _ W)) as Hfee.
+  pose proof (sell_product (st_bal s (Escrow q0) din) (st_bal s (Escrow q0) dout) ain
+                (S18 - p_fee (st_params s)) S18 HX HY ltac:(lia) ltac:(lia) ltac:(lia)) as [P1 P2].
+  cbv zeta in P1, P2. unfold sell_out in Hr. cbv zeta in Hr. rewrite <- Hr in P1, P2.
+  assert (HD : 0 < st_bal s (Escrow q0) din * S18 + ain * (S18 - p_fee (st_params s))) by nia.
+  pose proof (div_bounds (ain * (S18 - p_fee (st_params s)) * st_bal s (Escrow q0) dout) _ HD) as DB.
+  rewrite <- Hr in DB.
+  assert (Hne : din <> dout).
+  { intros ->. unfold pool_of in HP. rewrite denom_eqb_refl in HP. discriminate. }
+  exists q0, n, b, mx. cbv zeta. splits; auto; try lia.
+  - rewrite HB. unfold at_, delta. cbn [acct_eqb andb]. rewrite Z.eqb_refl, denom_eqb_refl. cbn [andb].
+    destruct (denom_eqb_spec din dout); [contradiction|]. rewrite andb_false_r. lia.
+  - intros Hrec. rewrite HB. unfold at_, delta. rewrite acct_eqb_refl, denom_eqb_refl. cbn [andb].
+    destruct (acct_eqb_spec rec (Escrow q0)); [contradiction|]. cbn [andb].
+    destruct (denom_eqb_spec dout din); [congruence|]. rewrite !andb_false_r. lia.
+  - intros Hrec. split; rewrite HB; unfold at_, delta; rewrite acct_eqb_refl, !denom_eqb_refl;
+      change (acct_eqb (Escrow q0) (User u)) with false; cbn [andb].
+    + destruct (acct_eqb_spec (Escrow q0) rec); try congruence; cbn [andb].
+      destruct (denom_eqb_spec din dout); try contradiction. lia.
+    + destruct (acct_eqb_spec (Escrow q0) rec); try congruence; cbn [andb].
+      destruct (denom_eqb_spec dout din); try congruence. lia.
+  - destruct Hq as [(-> & -> & Q)|(-> & -> & Q)]; rewrite Q in HWL, Hmx; cbn [fst snd] in *; [left|right]; auto.
+  - destruct Hq as [(-> & -> & Q)|(-> & -> & Q)]; rewrite Q in HWL; cbn [fst] in HWL; exact HWL.
+Qed.
+
+(* C08 + C09 for a buy order *)
+Theorem buy_ok s u rec din max_in dout aout deadline s' r :
+  WF s -> exec now s (Buy u rec din max_in dout aout deadline) = Some (s', r) ->
+  exists q n sold mx,
+    r = [] /\ pool_of s din dout = Some q /\ lookup_pool n (st_pools s) = Some q /\
+    expired now deadline = false /\
+    let X := st_bal s (Escrow q) din in let Y := st_bal s (Escrow q) dout in
+    let g := S18 - p_fee (st_params s) in
+    0 < X /\ 0 < aout < Y /\
+    (* at most the stated maximum leaves the payer *)
+    0 < sold <= max_in /\
+    st_bal s' (User u) din = st_bal s (User u) din - sold /\
+    (* exactly the stated output is delivered *)
+    (rec <> Escrow q -> st_bal s' rec dout = st_bal s rec dout + aout) /\
+    (rec <> Escrow q -> st_bal s' (Escrow q) din = X + sold /\ st_bal s' (Escrow q) dout = Y - aout) /\
+    (* within one unit of the exact value, rounded in the pool's favour *)
+    (sold - 1) * ((Y - aout) * g) <= X * aout * S18 < sold * ((Y - aout) * g) /\
+    X * Y < (X + sold) * (Y - aout) /\
+    (* C09 *)
+    is_module rec = false /\
+    ((din = Std /\ dout = Tok n /\ aout <= mx) \/ (din = Tok n /\ dout = Std /\ sold <= mx)) /\
+    wl_lookup (Tok n) (p_wl (st_params s)) = Some mx.
+Proof.
+  intros W E. cbn [exec] in E. inv. bool_hyps. destruct v as [s2 b]. cbn [fst] in *.
+  match goal with HA : trade_buy _ _ _ _ _ _ _ = Some _ |- _ =>
+    destruct (trade_buy_effect _ _ _ _ _ _ _ _ _ HA ltac:(lia) (wf_params _ W))
+      as (q0 & HP & HX & HY & Hr & Hmax & Hr0 & (mx & HWL & Hmx) & Hbal & _ & HS & HB) end.
+  rewrite pool_of_sym in HP.
+  destruct (quote_is_token _ _ _ _ b aout HP) as (n & HL & Hq).
+  pose proof (params_valid_fee _ (wf_params _ W)) as Hfee.
+  assert (HD : 0 < (st_bal s (Escrow q0) dout - aout) * (S18 - p_fee (st_params s))) by nia.
+  pose proof (div_bounds (st_bal s (Escrow q0) din * aout * S18) _ HD) as DB.
+  assert (HYpos : 0 < st_bal s (Escrow q0) dout) by lia.
+  pose proof (buy_product (st_bal s (Escrow q0) din) (st_bal s (Escrow q0) dout) aout
+                (S18 - p_fee (st_params s)) S18 HX HYpos ltac:(lia) ltac:(lia) ltac:(lia)) as [_ P2].
+  cbv zeta in P2.
+  unfold buy_in in Hr. cbv zeta in Hr. rewrite <- Hr in P2.
+  assert (Hsold : b - 1 = st_bal s (Escrow q0) din * aout * S18 / ((st_bal s (Escrow q0) dout - aout) * (S18 - p_fee (st_params s)))) by lia.
+  rewrite <- Hsold in DB.
+  assert (Hne : din <> dout).
+  { intros ->. unfold pool_of in HP. rewrite denom_eqb_refl in HP. discriminate. }
+  exists q0, n, b, mx. cbv zeta. splits; auto; try lia.
+  - rewrite HB. unfold at_, delta. cbn [acct_eqb andb]. rewrite Z.eqb_refl, denom_eqb_refl. cbn [andb].
+    destruct (denom_eqb_spec din dout); [contradiction|]. rewrite andb_false_r. lia.
+  - intros Hrec. rewrite HB. unfold at_, delta. rewrite acct_eqb_refl, denom_eqb_refl. cbn [andb].
+    destruct (acct_eqb_spec rec (Escrow q0)); [contradiction|]. cbn [andb].
+    destruct (denom_eqb_spec dout din); [congruence|]. rewrite !andb_false_r. lia.
+  - intros Hrec. split; rewrite HB; unfold at_, delta; rewrite acct_eqb_refl, !denom_eqb_refl;
+      change (acct_eqb (Escrow q0) (User u)) with false; cbn [andb].
+    + destruct (acct_eqb_spec (Escrow q0) rec); try congruence; cbn [andb].
+      destruct (denom_eqb_spec din dout); try contradiction. lia.
+    + destruct (acct_eqb_spec (Escrow q0) rec); try congruence; cbn [andb].
+      destruct (denom_eqb_spec dout din); try congruence. lia.
+  - (* quote dout aout din sold : the calculated leg is (din, sold) *)
+    destruct Hq as [(-> & -> & Q)|(-> & -> & Q)].
+    + left. splits; auto; unfold quote in HWL, Hmx; cbn [denom_eqb negb fst snd] in *; exact Hmx.
+    + right. splits; auto; unfold quote in HWL, Hmx; cbn [denom_eqb negb fst snd] in *; exact Hmx.
+  - destruct Hq as [(-> & -> & Q)|(-> & -> & Q)]; unfold quote in HWL; cbn [denom_eqb negb fst snd] in HWL; exact HWL.
+Qed.
+
+(* C08 for a removal; C01's pro-rata consequence *)
+Theorem remove_ok s u lpt w min_std min_tok deadline s' r :
+  WF s -> exec now s (RemoveLiq u lpt w min_std min_tok deadline) = Some (s', r) ->
+  exists q n ps pt,
+    lpt = Lpt q /\ r = [ps; pt] /\ lookup_pool n (st_pools s) = Some q /\
+    expired now deadline = false /\
+    let X := st_bal s (Escrow q) Std in let Y := st_bal s (Escrow q) (Tok n) in let L := st_sup s (Lpt q) in
+    0 < w <= L /\
+    (* burns exactly the stated pool tokens *)
+    st_sup s' (Lpt q) = L - w /\ st_bal s' (User u) (Lpt q) = st_bal s (User u) (Lpt q) - w /\
+    (* pays at least both minimums; the response equals what left the escrow and reached the provider *)
+    min_std <= ps /\ min_tok <= pt /\
+    st_bal s' (Escrow q) Std = X - ps /\ st_bal s' (Escrow q) (Tok n) = Y - pt /\
+    st_bal s' (User u) Std = st_bal s (User u) Std + ps /\ st_bal s' (User u) (Tok n) = st_bal s (User u) (Tok n) + pt /\
+    (* pro-rata, within one unit, rounded in the pool's favour: never more than the share *)
+    ps * L <= w * X < (ps + 1) * L /\ pt * L <= w * Y < (pt + 1) * L /\
+    (forall e, e <> Lpt q -> st_sup s' e = st_sup s e) /\
+    (forall x, x <> User u -> x <> Escrow q -> forall e, st_bal s' x e = st_bal s x e).
+Proof.
+  intros W E. cbn [exec] in E. inv. bool_hyps.
+  destruct lpt as [| |sq]; try discriminate. inv. destruct v as [s2 [ps pt]]. cbn [fst snd] in *.
+  match goal with HA : remove_liquidity _ _ _ _ _ _ = Some _ |- _ =>
+    destruct (remove_liquidity_effect _ _ _ _ _ _ _ _ _ HA ltac:(lia))
+      as (tokn & LS & HwL & Hps & Hpt & Hps0 & Hpt0 & Hm1 & Hm2 & Hbal & _ & HS & HB) end.
+  cbv zeta in *.
+  destruct W as [HPV HN HOK HSUP].
+  assert (HL : lookup_pool tokn (st_pools s) = Some sq).
+  { destruct HOK as (ND & _ & _). apply in_lookup_pool; [exact ND|]. apply lookup_seq_in. exact LS. }
+  pose proof (HN (Escrow sq) Std) as NX. pose proof (HN (Escrow sq) (Tok tokn)) as NY.
+  assert (HLpos : 0 < st_sup s (Lpt sq)) by lia.
+  rewrite Z.quot_div_nonneg in Hps, Hpt by nia.
+  pose proof (div_bounds (w * st_bal s (Escrow sq) Std) _ HLpos) as D1. rewrite <- Hps in D1.
+  pose proof (div_bounds (w * st_bal s (Escrow sq) (Tok tokn)) _ HLpos) as D2. rewrite <- Hpt in D2.
+  exists sq, tokn, ps, pt. cbv zeta. splits; auto; try lia.
+  - rewrite HS. unfold delta. rewrite denom_eqb_refl. lia.
+  - rewrite HB. deltas.
+  - rewrite HB. deltas.
+  - rewrite HB. deltas.
+  - rewrite HB. deltas.
+  - rewrite HB. deltas.
+  - intros e He. rewrite HS. unfold delta. destruct (denom_eqb_spec e (Lpt sq)); [contradiction|]. lia.
+  - intros x H1 H2 e. rewrite HB. unfold at_, delta.
+    destruct (acct_eqb_spec x (User u)), (acct_eqb_spec x (Escrow sq)); try contradiction. cbn [andb]. lia.
+Qed.
+
+(* C08: no message takes effect after its deadline *)
+Theorem deadline_ok s o s' r :
+  exec now s o = Some (s', r) ->
+  match o with
+  | Sell _ _ _ _ _ _ dl | Buy _ _ _ _ _ _ dl | AddLiq _ _ _ _ _ dl | RemoveLiq _ _ _ _ _ dl =>
+      now <= dl * 1000000000
+  | _ => True
+  end.
+Proof.
+  intros E. destruct o; try exact I; cbn [exec] in E; inv; unfold expired in *; bool_hyps; lia.
+Qed.
+
+End Step3.
